@@ -55,6 +55,8 @@ async fn mutual(mut sim: Sim, seed: u64, gated: bool) -> Result<Value, String> {
             crate::sim::quic(&mut cfg.config).keep_alive_interval_ms = None;
         }
         cfg.config.max_concurrent_outstanding_connecting_connections = cap;
+        // (round trips of more than a second must fit into a handshake)
+        cfg.config.connect_timeout_ms = Some(20_000);
         sim.add_node(cfg).map_err(|e| e.to_string())?;
     }
     let mut lossy = false;
@@ -69,7 +71,14 @@ async fn mutual(mut sim: Sim, seed: u64, gated: bool) -> Result<Value, String> {
         gate::release(rule_i);
         let mut p = Policy::default();
         p.latency_ms = (1, [1, 3, 10, 40][sim.rng.gen_range(0..4)]);
+        if sim.rng.gen_range(0..6) == 0 {
+            // a long way apart: every datagram takes 0.6 - 0.7 s, a handshake several seconds
+            p.latency_ms = (600, 700);
+        }
         p.loss = [0.0, 0.0, 0.05, 0.15][sim.rng.gen_range(0..4)];
+        if p.latency_ms.0 >= 600 {
+            p.loss = 0.0;
+        }
         lossy = p.loss > 0.0;
         p.dup = [0.0, 0.1][sim.rng.gen_range(0..2)];
         p.reorder = [0.0, 0.2][sim.rng.gen_range(0..2)];
@@ -164,6 +173,15 @@ async fn mutual(mut sim: Sim, seed: u64, gated: bool) -> Result<Value, String> {
     if oks == 2 {
         // the property's premise: both handshakes finished
         sim.run.obs(-1, "obs.converged", json!({"a": 0, "b": 1}));
+        // from here on each also keeps the other as a known peer it wants to stay connected to: the
+        // connectivity checks of the next half minute find the pair connected and leave it alone
+        if sim.rng.gen_bool(0.5) {
+            use anemo::types::{PeerAffinity, PeerInfo};
+            for (a, b) in [(0usize, 1usize), (1, 0)] {
+                let info = PeerInfo { peer_id: sim.peer_id(b), affinity: PeerAffinity::High, address: vec![sim.addr(b).into()] };
+                sim.known_insert(a, info);
+            }
+        }
     }
     // (when loss made both dials time out nothing was established: outside the property's premise)
     for (a, b) in [(0usize, 1usize), (1, 0)] {
